@@ -322,11 +322,58 @@ def r06_5(ctx, counts: dict[str, int]) -> RuleResult:
     return res
 
 
+def r06_6(ctx, counts: dict[str, int]) -> RuleResult:
+    """a zero divisor: IEEE result when EITHER operand is a double/float"""
+    res = RuleResult(
+        'R06.6', 'ZERO-DIVISOR-PROMOTION',
+        'For a zero divisor F&O gives FOAR0001 when both operands are xs:integer/xs:decimal and '
+        'the IEEE result (NaN, ±INF) when either operand is xs:double/xs:float, because the other '
+        'one is promoted. In the evaluate functions of div and mod a test that selects the IEEE '
+        'branch for a zero divisor — `<divisor> == 0 and isinstance(<x>, float)` — must inspect '
+        'the class of BOTH operands (or of neither: a test on the divisor alone sends '
+        '`1e0 mod 0` to FOAR0001).')
+    n = 0
+    for sym in ('div', 'mod'):
+        f = _operator_func(ctx, sym)
+        ops: list[str] = []
+        for x in walk_local(f.node):
+            if isinstance(x, ast.Assign) and isinstance(x.value, ast.Call) and \
+                    dotted(x.value.func).split('.')[-1] == 'get_operands':
+                for t in x.targets:
+                    ops = [e.id for e in (t.elts if isinstance(t, ast.Tuple) else [t])
+                           if isinstance(e, ast.Name)]
+        if len(ops) != 2:
+            raise AnalysisError(f'{f.key}: operands of {sym} not located')
+        dividend, divisor = ops
+        for t in [x for x in walk_local(f.node) if isinstance(x, ast.BoolOp)
+                  and isinstance(x.op, ast.And)]:
+            txt = stmt_text(t)
+            if f'{divisor} == 0' not in txt or 'float' not in txt:
+                continue
+            subjects = {stmt_text(c.args[0]) for c in ast.walk(t) if isinstance(c, ast.Call)
+                        and dotted(c.func) == 'isinstance' and len(c.args) == 2
+                        and 'float' in stmt_text(c.args[1])}
+            n += 1
+            both = {dividend, divisor} <= subjects
+            res.instances.append(f'{f.key} [{sym}]: `{txt[:70]}` inspects the class of '
+                                 f'{sorted(subjects)}; both operands={both}')
+            if both:
+                res.ok()
+            else:
+                res.fail(finding('R06.6', f, t, f'{sym}: zero divisor test on one operand',
+                                 f'`{txt[:70]}` chooses the IEEE result for a zero divisor from '
+                                 f'the class of {sorted(subjects)} only: with a double dividend '
+                                 f'and an integer zero (`1e0 {sym} 0`) the operands are promoted '
+                                 f'to xs:double and the result is NaN/INF, not FOAR0001'))
+    counts['zero_divisor_tests'] = n
+    return res
+
+
 def run(ctx) -> dict:
     counts: dict[str, int] = {}
     return {
         'results': [r06_1(ctx, counts), r06_2(ctx, counts), r06_3(ctx, counts), r06_4(ctx, counts),
-                    r06_5(ctx, counts)], 'counts': counts,
+                    r06_5(ctx, counts), r06_6(ctx, counts)], 'counts': counts,
         'explanation':
             'Decided: the rounding-mode clause of C06 and one IEEE clause (the sign of a zero '
             'divisor is never read through a comparison). Rounding: a who-may-call rule confines '
